@@ -189,7 +189,7 @@ func runCheck(prop, tier string, seed uint64, replay string) int {
 	}
 	c.sc = sc
 	for _, sm := range sc.Report.Seams {
-		if sm.Kind == "go" || sm.Kind == "timer" {
+		if sm.Kind == "go" || sm.Kind == "timer" || sm.Kind == "send" {
 			bubbleOn = true
 		}
 	}
